@@ -113,19 +113,42 @@ def _is_call_dispatch(callee: Term) -> bool:
     return False
 
 
+def dispatch_aliases(model: Model, ci: ClassInfo) -> dict:
+    """class-level `visit_K = <method of the class>` assignments: K is dispatched to that method as well"""
+    out = {}
+    meths = model.all_methods(ci)
+    for c in reversed(model.mro(ci)):
+        if not isinstance(c, ClassInfo):
+            continue
+        for n, v in c.class_assigns.items():
+            if ((n.startswith("visit_") or n.startswith("call_")) and n.count("_") == 1) and n not in c.methods and isinstance(v, ast.Name) and v.id in meths:
+                out[n] = meths[v.id]
+    return out
+
+
 def dispatch_entries(model: Model, ci: ClassInfo) -> List[FuncInfo]:
-    return [f for n, f in sorted(model.all_methods(ci).items()) if (n.startswith("visit_") and n.count("_") == 1) or (n.startswith("call_") and n.count("_") == 1)]
+    """the methods the visitor protocol dispatches to; an entry reached under an alias name (`visit_K = helper`) is
+    handed out as a copy of the helper's record that carries the dispatch name in `entry_name`"""
+    import dataclasses
+
+    res = [f for n, f in sorted(model.all_methods(ci).items()) if (n.startswith("visit_") and n.count("_") == 1) or (n.startswith("call_") and n.count("_") == 1)]
+    for n, f in sorted(dispatch_aliases(model, ci).items()):
+        g = dataclasses.replace(f)
+        object.__setattr__(g, "entry_name", n)
+        res.append(g)
+    return res
 
 
 def unvisited_in_entry(ctx: TermCtx, fi: FuncInfo) -> List[Tuple[ast.Return, Term, Term]]:
     """(return stmt, leaked raw subterm, whole return term) for a dispatch entry."""
     from .normalise import unrolled
 
+    entry = getattr(fi, "entry_name", fi.name)
     fi = unrolled(ctx.model, fi)
     fa = ctx.analysis(fi)
     raw0 = {("param", p) for p in fi.pos_params[1:]}
     res = []
-    if fi.name in ("visit_Name", "visit_Constant"):
+    if entry in ("visit_Name", "visit_Constant"):
         return res  # leaf node kinds: nothing below them to visit
     # in-place cleaning: self.generic_visit(<param>) executed on every path before the return
     cleaners = []
